@@ -16,6 +16,7 @@ structure World where
   segs : List (List Frame)       -- current greenlet first; each innermost-first
   others : List (List Frame) := []   -- f_back chains (innermost first) of frames not on this thread's stack:
                                      -- suspended greenlets, other threads
+  threads : List Frame := []         -- `sys._current_frames()` of the OTHER threads: the innermost frame of each, in dict order
   deriving Repr
 
 /-- `f_back` chain starting at `f` (inclusive), within its own segment. -/
@@ -71,19 +72,49 @@ def applyLimit (frames : List Frame) (outer inner : Option Frame) (limit : Optio
     else frames
   | none => frames
 
-/-- `unwrap_stackslice(StackSlice(outer, inner, limit))` on the calling thread (other threads' stacks
-are not consulted: the model has one thread). -/
+/-- `for ident, other_frame in sys._current_frames().items(): frames = try_from(other_frame); if frames: break` -/
+def searchThreads (w : World) (outer : Option Frame) : List Frame → List Frame
+  | [] => []
+  | t :: ts => let r := tryFrom w outer t; if r.isEmpty then searchThreads w outer ts else r
+
+/-- `unwrap_stackslice(StackSlice(outer, inner, limit))` on the calling thread; when `outer` is not found there
+and no `inner` was given, the other threads' stacks (`w.threads`) are searched in order. -/
 def unwrapSlice (w : World) (outer inner : Option Frame) (limit : Option Nat) : Res :=
   let caller : Frame := (w.segs.head?.bind List.head?).getD 0
   let first : List Frame :=
     if w.segs.length ≥ 2 then greenletSlice w.segs.flatten outer inner    -- greenlet_getcurrent().parent is not None
     else []
-  let second := if first.isEmpty then tryFrom w outer (inner.getD caller) else first
+  let second0 := if first.isEmpty then tryFrom w outer (inner.getD caller) else first
+  -- outer_frame isn't on *our* stack, but it might be on some other thread's stack
+  let second := if second0.isEmpty && inner.isNone then searchThreads w outer w.threads else second0
   if second.isEmpty then
     match outer with
     | some o => .notRunning o
     | none => .frames []          -- unreachable: try_from with outer None is never empty
   else .frames (applyLimit second outer inner limit)
+
+/-- The code before the repair of F26: the search loop was written `for ident, inner_frame in ...`, which rebinds the local
+that the limit's anchor test reads; after a search that looked at any thread, `inner_frame` is that thread's frame. -/
+def unwrapSliceOld (w : World) (outer inner : Option Frame) (limit : Option Nat) : Res :=
+  let caller : Frame := (w.segs.head?.bind List.head?).getD 0
+  let first : List Frame :=
+    if w.segs.length ≥ 2 then greenletSlice w.segs.flatten outer inner
+    else []
+  let second0 := if first.isEmpty then tryFrom w outer (inner.getD caller) else first
+  let searched := second0.isEmpty && inner.isNone
+  let second := if searched then searchThreads w outer w.threads else second0
+  -- the frame the loop variable was last bound to: the thread on which the search stopped (or the last one)
+  let rebound : Option Frame :=
+    if searched then
+      (match w.threads.find? (fun t => !(tryFrom w outer t).isEmpty) with
+       | some t => some t
+       | none => w.threads.getLast?)
+    else inner
+  if second.isEmpty then
+    match outer with
+    | some o => .notRunning o
+    | none => .frames []
+  else .frames (applyLimit second outer (if searched then rebound else inner) limit)
 
 /-! ### the specification: a contiguous slice of the true stack -/
 
